@@ -134,6 +134,7 @@ type Env struct {
 	mu      sync.Mutex
 	nEvents int
 	hist    []Event // ring of the last histCap events
+	histAt  int
 	streams map[string]uint64
 	Stats   map[string]int // fault kinds fired, probes hit
 	States  map[string]bool
@@ -161,11 +162,12 @@ func (e *Env) Rec(stream, kind, detail string, hashed bool) int {
 	defer e.mu.Unlock()
 	e.nEvents++
 	ev := Event{N: e.nEvents, T: time.Since(e.T0).Seconds(), Stream: stream, Kind: kind, Detail: detail}
-	if len(e.hist) >= histCap {
-		copy(e.hist, e.hist[1:])
-		e.hist = e.hist[:histCap-1]
+	if len(e.hist) < histCap {
+		e.hist = append(e.hist, ev)
+	} else {
+		e.hist[e.histAt] = ev
+		e.histAt = (e.histAt + 1) % histCap
 	}
-	e.hist = append(e.hist, ev)
 	if hashed {
 		h := fnv.New64a()
 		var b [8]byte
@@ -198,7 +200,7 @@ func (e *Env) EventN() int { e.mu.Lock(); defer e.mu.Unlock(); return e.nEvents 
 func (e *Env) History() []Event {
 	e.mu.Lock()
 	defer e.mu.Unlock()
-	return append([]Event(nil), e.hist...)
+	return append(append([]Event(nil), e.hist[e.histAt:]...), e.hist[:e.histAt]...)
 }
 
 // TraceHash is the hash of the canonical trace: decision log plus per-stream event hashes.
@@ -267,3 +269,12 @@ func (e *Env) Now() time.Time { return time.Now() }
 func (e *Env) SimSeconds() float64 { return time.Since(e.T0).Seconds() }
 
 func (e *Env) OnCleanup(f func()) { e.cleanup = append(e.cleanup, f) }
+
+func mix(a, b, c uint64) uint64 {
+	z := a*0x9E3779B97F4A7C15 ^ (b+0x632BE59BD9B4E019)*0xBF58476D1CE4E5B9 ^ (c+0x1234567)*0x94D049BB133111EB
+	z ^= z >> 31
+	z *= 0xD6E8FEB86659FD93
+	z ^= z >> 32
+	return z
+}
+
